@@ -69,8 +69,13 @@ Entry(name, used, child, prefix, mapped) ==
     [name |-> name, used |-> used, child |-> child, prefix |-> prefix, mapped |-> mapped]
 
 NamesOf(s) == { s.list[i].name : i \in 1..Len(s.list) }
+\* the names that stand for child c in s: the table's name and, when a user re-declared an
+\* already hoisted child under a name of his own (round 6), the name of the older
+\* assignment as well -- both are assigned in the list and hold the child's value
+NamesFor(s, c) == IF c \notin DOMAIN s.toName THEN {}
+                  ELSE {s.toName[c]} \cup { s.list[i].name : i \in { j \in 1..Len(s.list) : s.list[j].child = c } }
 \* the names the wrappers ws stand for, as far as they are assigned
-RightNames(s, ws) == { s.toName[ws[i].a] : i \in { j \in 1..Len(ws) : ws[j].a \in DOMAIN s.toName } }
+RightNames(s, ws) == UNION { NamesFor(s, ws[i].a) : i \in 1..Len(ws) }
 
 \* what hoisting `child` under `name` with a text that references `used` would
 \* break ("" = the step is allowed).  Shared by the model's anti-deadlock
@@ -93,6 +98,12 @@ RetClause(s, e, used) ==
     ELSE IF ~(used \subseteq RightNames(s, Wraps(e))) THEN "wrong-reference"
     ELSE ""
 
+Range(f) == { f[c] : c \in DOMAIN f }
+\* "ReservedFromTable" (round 6): a mapper built from an existing list reserves the names
+\* its TABLE mentions instead of the names its LIST assigns.  The two differ as soon as a
+\* listed name is not (or no longer) the value of a table entry: a hoisted child the user
+\* re-declared under another name, a list of (name, code string) pairs.
+Reserve(s) == IF Buggy = "ReservedFromTable" THEN [s EXCEPT !.names = Range(s.toName)] ELSE s
 CopyOf(s) == IF Buggy = "CopyForgets" THEN [list |-> s.list, toName |-> NoNames, names |-> {}]
              ELSE s
 \* CCodeMapper(cse_name_list=m.cse_name_list): the list holds (name, code string) pairs
@@ -113,11 +124,22 @@ DeclOf(s) ==
         toName |-> [c \in { L[i].child : i \in 1..Len(L) } |->
                        L[CHOOSE i \in 1..Len(L) : L[i].child = c].name],
         names |-> NamesOf(s)]
-CopyHow(s, how) == IF how = "ctor" /\ Buggy = "" THEN DeclOf(s) ELSE CopyOf(s)
+\* under "ReservedFromTable" the table of a constructor-built mapper holds the entries a
+\* user mapped only (code strings declare no subexpression)
+DeclBuggy(s) ==
+    LET d == DeclOf(s) IN
+    [d EXCEPT !.names = { s.list[i].name : i \in { j \in 1..Len(s.list) : s.list[j].mapped } }]
+CopyHow(s, how) == IF how = "ctor" /\ Buggy = "" THEN DeclOf(s)
+                   ELSE IF how = "ctor" /\ Buggy = "ReservedFromTable" THEN DeclBuggy(s)
+                   ELSE Reserve(CopyOf(s))
+\* copy_with_mapped_cses([(name, child)]): the user declares that `child` is available as
+\* `name`.  The child may be one the mapper has hoisted already (round 6): the declaration
+\* then takes over the table entry (the copy refers to the child by the user's name from
+\* now on) while the older assignment stays in the list -- and its name stays reserved.
 MappedEff(s, name, child) ==
-    [list |-> Append(s.list, Entry(name, {}, child, "", TRUE)),
-     toName |-> s.toName @@ (child :> name),
-     names |-> IF Buggy = "CopyForgets" THEN s.names ELSE s.names \cup {name}]
+    Reserve([list |-> Append(s.list, Entry(name, {}, child, "", TRUE)),
+             toName |-> (child :> name) @@ s.toName,
+             names |-> IF Buggy = "CopyForgets" THEN s.names ELSE s.names \cup {name}])
 
 \* ------------------------------------------------------------- name choice
 \* the candidates for a prefix: _cse_<p>, _cse_<p>_2, _cse_<p>_3 ... ; without a
@@ -162,9 +184,12 @@ PoolMore == <<
   B("FloorDiv", CP(c6, "u_2"), CP(c2, "v")) >>
 Pool == IF Tier = "quick" THEN PoolQuick ELSE PoolQuick \o PoolMore
 MappedKids == << c5, c2 >>            \* wrapper-free children a user may pre-assign
+Redeclarable == << c1, c2, c5 >>      \* ... or re-declare after the mapper has hoisted them
+\* the names a user declares: one of his own, and one that looks like a generated candidate
+MappedNames == << "m0", "_cse_u_2" >>
 MaxGen == IF Tier = "tiny" THEN 2 ELSE IF Tier = "sim" THEN 6 ELSE 3
 MaxMappers == IF Tier = "sim" THEN 4 ELSE 2
-Hows == IF Tier = "quick" THEN {"copy"} ELSE {"copy", "ctor"}
+Hows == {"copy", "ctor"}
 
 NGen(h) == Cardinality({ i \in 1..Len(h) : h[i].op = "gen" })
 
@@ -238,7 +263,8 @@ Copy(m, how) ==
 CopyMapped(m, name, child) ==
     /\ cur = 0 /\ Len(ms) < MaxMappers /\ GensLeft
     /\ Len(ms[m].list) > 0
-    /\ child \notin DOMAIN ms[m].toName /\ name \notin NamesOf(ms[m])
+    /\ name \notin NamesOf(ms[m])
+    /\ \A i \in 1..Len(ms[m].list) : ~(ms[m].list[i].mapped /\ ms[m].list[i].child = child)
     /\ ms' = Append(ms, MappedEff(CopyOf(ms[m]), name, child))
     /\ hist' = Append(hist, [op |-> "copym", m |-> m, name |-> name, c |-> child])
     /\ UNCHANGED << stack, cur >>
@@ -250,12 +276,21 @@ FirstUnmapped(s) ==
                  ELSE IF MappedKids[i] \notin DOMAIN s.toName THEN i ELSE Go(i + 1)
     IN Go(1)
 
+\* the first re-declarable child the mapper has hoisted itself
+FirstHoisted(s) ==
+    LET RECURSIVE Go(_)
+        Go(i) == IF i > Len(Redeclarable) THEN 0
+                 ELSE IF \E j \in 1..Len(s.list) : ~s.list[j].mapped /\ s.list[j].child = Redeclarable[i]
+                      THEN i ELSE Go(i + 1)
+    IN Go(1)
+
 Next ==
     \/ \E m \in 1..Len(ms), i \in 1..Len(Pool) : CallGen(m, Pool[i])
     \/ Use \/ Enter \/ Hoist \/ Return
     \/ \E m \in 1..Len(ms), how \in Hows : Copy(m, how)
-    \/ \E m \in 1..Len(ms) : FirstUnmapped(ms[m]) # 0
-                             /\ CopyMapped(m, "m0", MappedKids[FirstUnmapped(ms[m])])
+    \/ \E m \in 1..Len(ms), n \in 1..Len(MappedNames) :
+          \/ FirstUnmapped(ms[m]) # 0 /\ CopyMapped(m, MappedNames[n], MappedKids[FirstUnmapped(ms[m])])
+          \/ FirstHoisted(ms[m]) # 0 /\ CopyMapped(m, MappedNames[n], Redeclarable[FirstHoisted(ms[m])])
 
 Spec == Init /\ [][Next]_vars
 
@@ -265,10 +300,18 @@ NamesUniqueIn(s) ==
 DefinedBeforeUseIn(s) ==
     \A i \in 1..Len(s.list) : s.list[i].used \subseteq { s.list[j].name : j \in 1..(i - 1) }
 \* one assignment per child, and toName is exactly the list's child -> name map
+\* (round 6) the MAPPER never assigns a child that has an entry already; a later entry for
+\* the same child can only be a user's declaration (copy_with_mapped_cses of a hoisted
+\* child, at most one per child), and the table follows the latest entry.  Without such
+\* re-declarations this is literally "children pairwise distinct, toName = the list's map".
+LastFor(s, c) == s.list[CHOOSE i \in 1..Len(s.list) :
+                          /\ s.list[i].child = c
+                          /\ \A j \in (i + 1)..Len(s.list) : s.list[j].child # c]
 OncePerChildIn(s) ==
-    /\ \A i, j \in 1..Len(s.list) : i # j => s.list[i].child # s.list[j].child
+    /\ \A i, j \in 1..Len(s.list) :
+          (i < j /\ s.list[i].child = s.list[j].child) => (s.list[j].mapped /\ ~s.list[i].mapped)
     /\ \A i \in 1..Len(s.list) : /\ s.list[i].child \in DOMAIN s.toName
-                                 /\ s.toName[s.list[i].child] = s.list[i].name
+                                 /\ s.toName[s.list[i].child] = LastFor(s, s.list[i].child).name
     /\ \A c \in DOMAIN s.toName : \E i \in 1..Len(s.list) : s.list[i].child = c
 \* prefixes that repeat, or that look like each other's generated candidates
 Family(p) == IF p = "" THEN {} ELSE { p \o "_" \o ToString(k) : k \in 2..8 }
